@@ -324,6 +324,16 @@ def run(ctx):
             lens[pos] = ln
             case(scenario(stores[n % 2], lens, lim, [], pos=pos), 'read len x limit')
             n += 1
+    # A'. the lengths around the one-byte offset field: 256..260 x limits on both sides of every chunk size
+    for ln in (256, 257, 258, 259, 260):
+        for lim in (4, 5, 7, 8, 12, 13, 16, 20, 255):
+            for store in stores:
+                case(scenario(store, [7, ln], lim, [], pos=1), 'read len 256..260 x limit')
+            # and with a cancellation / transient code somewhere in the middle of the read
+            base = scenario(stores[(ln + lim) % 2], [ln, 11], lim, [], pos=0)
+            k = rng.randrange(2, 14)
+            case(dict(base, plan=[('none',)] * k + [rng.choice([('cancel',), ('code', 0xC3), ('code', 0xCE), ('busy',)])]),
+                 'read len 256..260 x limit + fault')
     # B. one fault at every request index
     combos = [(25, 255), (64, 16), (260, 255), (21, 20), (6, 8), (120, 12)] if q else \
         [(ln, lim) for ln in (5, 6, 21, 25, 64, 120, 260) for lim in (4, 8, 12, 16, 19, 20, 255)]
@@ -345,9 +355,11 @@ def run(ctx):
             plan.insert(rng.randrange(len(plan) + 1),
                         rng.choice([('cancel',), ('cancel',), ('code', 0xC3), ('code', 0xCE), ('busy',),
                                     ('code', 0xC9), ('code', 0xC5), ('code', 0xFF)]))
-        if lim >= 8 and rng.random() < 0.2:
+        if lim >= 8 and ln <= 256 and rng.random() < 0.2:
             # one spurious 'cannot return number of bytes' (max_req_len stays positive; the helper's
-            # behaviour with max_req_len <= 0 is outside the property and not modelled)
+            # behaviour with max_req_len <= 0 is outside the property and not modelled).  Only for
+            # records <= 256 bytes: an inconsistent limit on a longer record can steer the one-byte
+            # offset past 255 (Props: C11_exact_or_error_inconsistent_limit_refuted) - outside C11.
             plan.insert(rng.randrange(len(plan) + 1), ('code', 0xCA))
         case(scenario(rng.choice(stores), [rng.choice(LENGTHS), ln], lim, plan, pos=1,
                       resv=rng.choice(['none', 'none', 'valid', 'stale'])), 'several faults')
@@ -382,7 +394,8 @@ def run(ctx):
     res.evaluations = len(terms)
     res.distinct_nontrivial = D.distinct
     res.histogram = D.hist
-    res.rule = ('record lengths {5,6,20,21,25,26,64,255,260,random} x limits {4..24,32,255} without faults; one fault '
+    res.rule = ('record lengths {5,6,20,21,25,26,64,255,260,random} x limits {4..24,32,255} without faults; lengths 256..260 x '
+                'limits {4,5,7,8,12,13,16,20,255} on both stores, plain and with one fault; one fault '
                 '(cancellation / 0xC3 / 0xCE / raised node-busy) at every request index of selected reads; random plans '
                 'with up to 4 faults incl. other codes; lists of 1..12 (thorough ..60) records with a cancellation / code at '
                 'request indices; absent record, empty store; both stores; with/without caller reservation (valid, stale). '
